@@ -129,10 +129,15 @@ Definition sizes_in_range : bool :=
 Definition mac_digest_ge_size : bool := forallb (fun m => m_size m <=? m_digest m) gen_macs.
 
 (* ---- toy hash for the correspondence run (the same function is defined in harness/c04.py) ---
-   polynomial rolling hash of output length hl bytes *)
-Definition toy_hash (hl : nat) (m : list Z) : list Z :=
-  let M := 256 ^ Z.of_nat hl in
-  be_encode hl (fold_left (fun a b => (a * 1000003 + b + 1) mod M) m (7 mod M)).
+   32-bit polynomial rolling state, expanded to hl output bytes *)
+Definition toy_mask : Z := 4294967295.
+Definition toy_step (a b : Z) : Z := Z.land (a * 65599 + b + 1) toy_mask.
+Fixpoint toy_out (hl : nat) (a j : Z) : list Z :=
+  match hl with
+  | O => []
+  | S k => Z.shiftr (Z.land ((a + j * 40503) * 2654435761) toy_mask) 24 :: toy_out k a (j + 1)
+  end.
+Definition toy_hash (hl : nat) (m : list Z) : list Z := toy_out hl (fold_left toy_step m 7) 0.
 
 (* ---- runs ---------------------------------------------------------------------------------- *)
 Definition canon_result (r : result (list Z)) : list Z :=
